@@ -1147,4 +1147,17 @@ pub(crate) const MAX_PUBKEY_SIZE: usize = 97;""")]),
     dict(name='c09-explicit-guard-inverted', expect=[('C09', 'R09.1')],
          note='explicit comparison guard with == for != : every correctly sized NIST public key is rejected, everything else parsed',
          edits=[(NIST, '                    // representation.\n                    enforce_equal_len(Self::OutputSize::to_usize(), encoded.len())?;\n', '                    // representation.\n                    if encoded.len() == Self::OutputSize::to_usize() {\n                        return Err(HpkeError::IncorrectInputLength(Self::OutputSize::to_usize(), encoded.len()));\n                    }\n')]),
+    # ------------------------------------------------------------------ the u64 encoder written as a loop
+    dict(name='c04-loop-encoder-little-endian', expect=[('C04', 'R02.3')],
+         note='loop form of write_u64_be that shifts by 8*i: the counter is written little-endian, nonces differ from RFC 9180',
+         edits=[(UTIL, '    assert_eq!(buf.len(), 8);\n    buf[0] = ((n & 0xff00000000000000) >> 56) as u8;\n    buf[1] = ((n & 0x00ff000000000000) >> 48) as u8;\n    buf[2] = ((n & 0x0000ff0000000000) >> 40) as u8;\n    buf[3] = ((n & 0x000000ff00000000) >> 32) as u8;\n    buf[4] = ((n & 0x00000000ff000000) >> 24) as u8;\n    buf[5] = ((n & 0x0000000000ff0000) >> 16) as u8;\n    buf[6] = ((n & 0x000000000000ff00) >>  8) as u8;\n    buf[7] =  (n & 0x00000000000000ff)        as u8;', '    assert_eq!(buf.len(), 8);\n    for (i, byte) in buf.iter_mut().enumerate() {\n        *byte = (n >> (8 * i)) as u8;\n    }')]),
+    dict(name='c04-loop-encoder-off-by-one-shift', expect=[('C04', 'R02.3')],
+         note='loop form of write_u64_be with 8*(7-i) replaced by a saturating 8*(6-i): byte 6 and 7 both carry the low byte',
+         edits=[(UTIL, '    assert_eq!(buf.len(), 8);\n    buf[0] = ((n & 0xff00000000000000) >> 56) as u8;\n    buf[1] = ((n & 0x00ff000000000000) >> 48) as u8;\n    buf[2] = ((n & 0x0000ff0000000000) >> 40) as u8;\n    buf[3] = ((n & 0x000000ff00000000) >> 32) as u8;\n    buf[4] = ((n & 0x00000000ff000000) >> 24) as u8;\n    buf[5] = ((n & 0x0000000000ff0000) >> 16) as u8;\n    buf[6] = ((n & 0x000000000000ff00) >>  8) as u8;\n    buf[7] =  (n & 0x00000000000000ff)        as u8;', '    assert_eq!(buf.len(), 8);\n    for (i, byte) in buf.iter_mut().enumerate() {\n        *byte = (n >> (8 * 6usize.saturating_sub(i))) as u8;\n    }')]),
+    dict(name='c04-loop-encoder-skips-high-half', expect=[('C04', 'R02.3')],
+         note='loop form of write_u64_be that leaves the four high bytes untouched (sequence numbers >= 2^32 collide)',
+         edits=[(UTIL, '    assert_eq!(buf.len(), 8);\n    buf[0] = ((n & 0xff00000000000000) >> 56) as u8;\n    buf[1] = ((n & 0x00ff000000000000) >> 48) as u8;\n    buf[2] = ((n & 0x0000ff0000000000) >> 40) as u8;\n    buf[3] = ((n & 0x000000ff00000000) >> 32) as u8;\n    buf[4] = ((n & 0x00000000ff000000) >> 24) as u8;\n    buf[5] = ((n & 0x0000000000ff0000) >> 16) as u8;\n    buf[6] = ((n & 0x000000000000ff00) >>  8) as u8;\n    buf[7] =  (n & 0x00000000000000ff)        as u8;', '    assert_eq!(buf.len(), 8);\n    for (i, byte) in buf.iter_mut().enumerate() {\n        if i < 4 {\n            continue;\n        }\n        *byte = (n >> (8 * (7 - i))) as u8;\n    }')]),
+    dict(name='c04-loop-encoder-masked-shift', expect=[('C04', 'R02.3')],
+         note='loop form of write_u64_be whose shift amount is masked to 5 bits: bytes 0..3 repeat bytes 4..7',
+         edits=[(UTIL, '    assert_eq!(buf.len(), 8);\n    buf[0] = ((n & 0xff00000000000000) >> 56) as u8;\n    buf[1] = ((n & 0x00ff000000000000) >> 48) as u8;\n    buf[2] = ((n & 0x0000ff0000000000) >> 40) as u8;\n    buf[3] = ((n & 0x000000ff00000000) >> 32) as u8;\n    buf[4] = ((n & 0x00000000ff000000) >> 24) as u8;\n    buf[5] = ((n & 0x0000000000ff0000) >> 16) as u8;\n    buf[6] = ((n & 0x000000000000ff00) >>  8) as u8;\n    buf[7] =  (n & 0x00000000000000ff)        as u8;', '    assert_eq!(buf.len(), 8);\n    for (i, byte) in buf.iter_mut().enumerate() {\n        *byte = (n >> ((8 * (7 - i)) & 31)) as u8;\n    }')]),
 ]
